@@ -48,6 +48,9 @@ int __real_clock_nanosleep(clockid_t, int, const struct timespec *, struct times
 int __real_usleep(useconds_t);
 unsigned __real_sleep(unsigned);
 int __real_sched_yield(void);
+int __real_sigprocmask(int how, const sigset_t *set, sigset_t *old);
+int __real_pthread_sigmask(int how, const sigset_t *set, sigset_t *old);
+int __real_sigaction(int signo, const struct sigaction *act, struct sigaction *old);
 int __real_epoll_wait(int, struct epoll_event *, int, int);
 int __real_select(int, fd_set *, fd_set *, fd_set *, struct timeval *);
 int __real_poll(struct pollfd *, nfds_t, int);
@@ -828,6 +831,25 @@ unsigned __wrap_sleep(unsigned s) {
   Ig ig_;
   sleep_ns((int64_t)s * 1000000000LL);
   return 0;
+}
+
+// Changing the signal mask or a disposition is a point at which the thread can lose the processor: code that
+// blocks signals around a critical section is exactly the code whose interleavings with deliveries on other
+// threads matter.
+int __wrap_sigprocmask(int how, const sigset_t *set, sigset_t *old) {
+  if (passthrough()) return __real_sigprocmask(how, set, old);
+  { Ig ig_; sched_point(); }
+  return __real_sigprocmask(how, set, old);
+}
+int __wrap_pthread_sigmask(int how, const sigset_t *set, sigset_t *old) {
+  if (passthrough()) return __real_pthread_sigmask(how, set, old);
+  { Ig ig_; sched_point(); }
+  return __real_pthread_sigmask(how, set, old);
+}
+int __wrap_sigaction(int signo, const struct sigaction *act, struct sigaction *old) {
+  if (passthrough() || act == nullptr) return __real_sigaction(signo, act, old);
+  { Ig ig_; sched_point(); }
+  return __real_sigaction(signo, act, old);
 }
 
 int __wrap_sched_yield(void) {
